@@ -450,7 +450,14 @@ fn eval_inner(p: &CorruptPoint) -> Result<EvalInfo, (String, bool)> {
                     prev = Some(k.clone());
                     it.next();
                 }
+                let stopped_with_error = it.take_error().is_some();
+                if stopped_with_error {
+                    info.read_errors += 1;
+                }
                 for (k, a) in &allowed {
+                    if stopped_with_error {
+                        break;
+                    }
                     if !a.contains(&None) && !seen.contains(k) {
                         return Err((format!("scan ended without an error but {} is missing", hex(k)), false));
                     }
